@@ -655,7 +655,7 @@ bool Interpret::getAssignment() const {
         lbool val = solver.getTermValue(term);
         ss << '(' << name << ' ' << (val == l_True ? "true" : (val == l_False ? "false" : "unknown")) << ')' << " ";
     }
-    ss.seekp(-1, std::ios::cur);
+    if (ss.tellp() > 1) { ss.seekp(-1, std::ios::cur); } // drop the separator after the last pair, if there is any pair
     ss << ')';
     notify_formatted(false, "%s", ss.str().c_str());
     return true;
